@@ -115,6 +115,37 @@ Lemma perm_trans_app_r : forall (A : Type) (L a b b' : list A),
   Permutation L (a ++ b) -> Permutation b b' -> Permutation L (a ++ b').
 Proof. intros A L a b b' H1 H2. eapply Permutation_trans; [exact H1|]. apply Permutation_app_head. exact H2. Qed.
 
+(* Permutation goals over lists of block ids, from Permutation hypotheses: count occurrences and let lia finish *)
+Definition occ1 (y x : nat) : nat := if Nat.eq_dec y x then 1%nat else 0%nat.
+
+Lemma count_occ_cons1 : forall y l x,
+  count_occ Nat.eq_dec (y :: l) x = (occ1 y x + count_occ Nat.eq_dec l x)%nat.
+Proof. intros y l x. cbn [count_occ]. unfold occ1. destruct (Nat.eq_dec y x); reflexivity. Qed.
+
+Lemma perm_count : forall l l' : list nat,
+  Permutation l l' <-> forall x, count_occ Nat.eq_dec l x = count_occ Nat.eq_dec l' x.
+Proof. intros l l'. apply Permutation_count_occ. Qed.
+
+#[export] Hint Rewrite count_occ_cons1 @count_occ_app @count_occ_nil : perm_nat_db.
+
+Ltac perm_nat :=
+  repeat match goal with
+         | H : Permutation _ _ |- _ =>
+             let H' := fresh H in pose proof (proj1 (perm_count _ _) H) as H'; clear H
+         end;
+  apply (proj2 (perm_count _ _));
+  let x := fresh "x" in
+  intros x;
+  repeat match goal with
+         | H : forall y : nat, count_occ Nat.eq_dec _ y = count_occ Nat.eq_dec _ y |- _ =>
+             pose proof (H x); clear H
+         end;
+  autorewrite with perm_nat_db in *; lia.
+
+Lemma perm_nat_test : forall (i : nat) (a b c L F : list nat),
+  Permutation L (i :: a ++ b ++ c) -> Permutation F (b ++ a) -> Permutation L (F ++ c ++ [i]).
+Proof. intros i a b c L F H1 H2. perm_nat. Qed.
+
 (* flat_map *)
 Lemma in_flat_map_iff : forall (A B : Type) (f : A -> list B) (l : list A) (y : B),
   In y (flat_map f l) <-> exists x, In x l /\ In y (f x).
@@ -184,6 +215,29 @@ Proof.
   destruct i as [|i]; cbn [nth_error combine] in *.
   - inversion Ha; inversion Hb; reflexivity.
   - apply IH; assumption.
+Qed.
+
+Lemma with_nth_nth_error : forall (A B : Type) (k : A -> B) (d : B) (l : list A) (g : nat),
+  with_nth k d l g = match nth_error l g with Some x => k x | None => d end.
+Proof.
+  intros A B k d l. induction l as [|x t IH]; intros g; [destruct g; reflexivity|].
+  destruct g as [|g]; [reflexivity|]. cbn [with_nth nth_error]. apply IH.
+Qed.
+
+Lemma in_combine_seq : forall (A : Type) (us : list A) (a g : nat) (x : A),
+  In (g, x) (combine (seq a (length us)) us) -> exists i, g = (a + i)%nat /\ nth_error us i = Some x.
+Proof.
+  intros A us. induction us as [|u t IH]; intros a g x H; [contradiction|].
+  cbn [length seq combine] in H. destruct H as [H|H].
+  - inversion H; subst. exists 0%nat. split; [lia | reflexivity].
+  - destruct (IH (S a) g x H) as (i & -> & Hi). exists (S i). split; [lia | exact Hi].
+Qed.
+
+Lemma flat_map_combine_snd : forall (A B C : Type) (h : B -> list C) (a : list A) (b : list B),
+  length a = length b -> flat_map (fun p : A * B => h (snd p)) (combine a b) = flat_map h b.
+Proof.
+  intros A B C h a. induction a as [|x a IH]; intros b H; destruct b as [|y b]; try discriminate H; [reflexivity|].
+  cbn [combine flat_map snd]. f_equal. apply IH. cbn [length] in H. lia.
 Qed.
 
 (* ====================================================================== replay *)
